@@ -312,6 +312,9 @@ func propC16Giant(ch core.Chooser, st *core.Stats) error {
 	}
 	n := pogreb.MaxValueLength - delta
 	kl := core.PickInt(ch, "klen", []int{0, 1, 65535})
+	if !core.Thorough() {
+		kl = 65535 // ... under the longest key: the largest record the format admits
+	}
 	k := []byte(c16Key(kl, 0))
 	v := make([]byte, n)
 	for i := 0; i < n; i += 4093 {
